@@ -901,3 +901,22 @@ Proof.
     cbn. apply (wf_cons progs W t Ht).
   - apply pinv_step; auto. apply (ireach_inv progs); auto.
 Qed.
+
+(* ------------------------------------------------------------------ *)
+(* statements over the executable machine (ghosts erased) *)
+Lemma reachable_inv progs s : wf progs -> reachable M (init progs) s -> exists x, GInv x /\ base x = s.
+Proof.
+  intros W R. destruct (reachable_ireach progs s R) as [x [Rx E]].
+  exists x. split; [apply (ireach_inv progs); auto|exact E].
+Qed.
+
+Lemma ownership_reachable progs s t n : wf progs -> reachable M (init progs) s -> holds (thr s t) n ->
+  n <> 0 /\
+  (forall k, Nat.iter k (nxt s) (head s) <> n) /\
+  tail s <> n /\
+  (forall u, pc (thr s u) = PLink -> prev (thr s u) <> n /\ node (thr s u) <> n) /\
+  (forall u, u <> t -> ~ In n (own_list (thr s u))).
+Proof.
+  intros W R H. destruct (reachable_inv progs s W R) as [x [G E]]. subst s.
+  apply (ownership_of_inv x t n G H).
+Qed.
